@@ -147,6 +147,66 @@ def unrepresentable_text(ctx):
                                    'valid DBus encoding: %s' % (sig, e), dict(case, bytes=data, little=little, offset=off), case)
 
 
+class _Fd:
+    """A descriptor stand-in; equal ones (the same descriptor number given twice) compare equal, like integers do."""
+
+    def __init__(self, n):
+        self.n = n
+
+    def __eq__(self, o):
+        return isinstance(o, _Fd) and o.n == self.n
+
+    def __hash__(self):
+        return hash(('fd', self.n))
+
+    def __repr__(self):
+        return 'fd%d' % self.n
+
+    def __bool__(self):
+        return self.n != 0
+
+
+REPEATS = ['ABA', 'AAB', 'ABB', 'ABAB', 'ABCA', 'ABCB', 'AABA', 'ABCABC', 'AAAA', 'ABBA']
+
+
+def repeated_descriptors(ctx):
+    """One descriptor given in several 'h' positions of one message: a UNIX_FD is written as the index of that
+    descriptor in the out-of-band list, so every index read back from the bytes must designate the descriptor given at that
+    position (whether the list then holds it once or once per position is the encoder's choice and not judged)."""
+    for pat in REPEATS:
+        fds = {c: _Fd(k) for k, c in enumerate(sorted(set(pat)))}
+        vals = [fds[c] for c in pat]
+        for shape in ('flat', 'array', 'struct', 'mixed'):
+            if shape == 'flat':
+                sig, py = 'h' * len(pat), list(vals)
+                flat = lambda tv: list(tv)
+            elif shape == 'array':
+                sig, py = 'ah', [list(vals)]
+                flat = lambda tv: list(tv[0])
+            elif shape == 'struct':
+                sig, py = '(' + 'h' * len(pat) + ')', [tuple(vals)]
+                flat = lambda tv: list(tv[0])
+            else:
+                sig, py = 'hsah', [vals[0], 'x', list(vals[1:])]
+                flat = lambda tv: [tv[0]] + list(tv[2])
+            for little in (True, False):
+                case = {'stream': 'repeated-fds', 'pattern': pat, 'shape': shape, 'little': little}
+                ctx.count('evaluations')
+                ctx.count('repeated_descriptor_cases')
+                out_fds = []
+                try:
+                    n, chunks = M.marshal(sig, py, 0, little, out_fds)
+                    typed, end = R.decode(sig, b''.join(chunks), 0, little, strict=True)
+                except Exception as e:
+                    ctx.report(None, 'marshal(%r) with a repeated descriptor: %r' % (sig, e), case, case)
+                    continue
+                idxs = flat(R.plain_list(sig, typed))
+                w = dict(case, given=repr(vals), indexes=idxs, out_of_band_list=repr(out_fds))
+                if any((not isinstance(i, int)) or i >= len(out_fds) or out_fds[i] != v for i, v in zip(idxs, vals)):
+                    ctx.report('fd-index-designates-other-descriptor', 'descriptors %r were encoded as indexes %r into the '
+                               'out-of-band list %r' % (vals, idxs, out_fds), w, case)
+
+
 def foreign_case(seed, idx):
     r = CC.case_rng(seed, 'foreign', idx)
     g = gen.Gen(r, max_depth=r.choice([2, 3, 4]), big=(r.random() < 0.1), free_variants=True)
@@ -169,6 +229,7 @@ def run(ctx):
                 '(direction, alignment-shape, byte order, offset mod 8) with a container')
     alignment_table(ctx)
     unrepresentable_text(ctx)
+    repeated_descriptors(ctx)
     ctx.budget(30 if ctx.tier == 'quick' else 420)
     n = 0
     for idx, sig, combos in CC.enumerated(ctx.tier, ctx.shard):
@@ -229,6 +290,8 @@ def replay(ctx, rp):
     elif st == 'foreign':
         sig, tv, little, off = foreign_case(seed, case['idx'])
         dir_b(ctx, sig, tv, little, off, case)
+    elif st == 'repeated-fds':
+        repeated_descriptors(ctx)
     elif st == 'not-text':
         unrepresentable_text(ctx)
     else:
